@@ -27,6 +27,9 @@ META = dict(
         "arithmetic for all bounds — arithmetic over decimal strings"
     ),
 )
+META["explanation"] += (
+    " Added after the independent seeding rounds 2-3: " 'R1 for get_minimum/get_maximum is a decision table: the two keyword values are only compared, so the returned (value, exclusive?) is decided for each of the three orderings and each presence combination, independent of how the function is written (tie goes to the exclusive bound).'
+)
 
 SWAP_FIELDS = {"minimum": "maximum", "maximum": "minimum", "exclusive_minimum": "exclusive_maximum", "exclusive_maximum": "exclusive_minimum"}
 SWAP_OPS = {"Ge": "Le", "Le": "Ge", "Gt": "Lt", "Lt": "Gt"}
